@@ -190,6 +190,32 @@ def print_assumptions(pid, module, names):
 
 
 # --------------------------------------------------------------------------
+# machine-wide cap on concurrently running case-evaluation coqc processes (several checks may
+# run at once): lock files used as a counting semaphore
+_SLOT_DIR = '/tmp/verif-coqc-slots'
+_NSLOTS = 2 * NPROC
+
+
+def _acquire_slot():
+    os.makedirs(_SLOT_DIR, exist_ok=True)
+    for k in range(_NSLOTS):
+        f = open(os.path.join(_SLOT_DIR, 'slot-%d' % k), 'w')
+        try:
+            fcntl.flock(f, fcntl.LOCK_EX | fcntl.LOCK_NB)
+            return f
+        except OSError:
+            f.close()
+    return None
+
+
+def _release_slot(f):
+    if f is not None:
+        try:
+            fcntl.flock(f, fcntl.LOCK_UN)
+        finally:
+            f.close()
+
+
 def coq_run_files(named_texts, timeout=900):
     """named_texts: list of (name, text).  Runs coqc on each in parallel.
     Returns list of (rc, output)."""
@@ -204,9 +230,16 @@ def coq_run_files(named_texts, timeout=900):
         paths.append(p)
     idx = 0
     running = {}
+    slots = {}
     t_end = time.time() + timeout
     while idx < len(paths) or running:
         while idx < len(paths) and len(running) < NPROC:
+            slot = _acquire_slot()
+            if slot is None:
+                if not running and time.time() > t_end:
+                    break
+                break
+            slots[idx] = slot
             pr = subprocess.Popen('ulimit -s unlimited 2>/dev/null; exec coqc -Q %s TV %s' % (COQ, paths[idx]),
                                   shell=True, cwd=CASES, stdout=subprocess.PIPE,
                                   stderr=subprocess.STDOUT)
@@ -216,11 +249,13 @@ def coq_run_files(named_texts, timeout=900):
         for k in done:
             pr = running.pop(k)
             results[k] = (pr.returncode, pr.stdout.read().decode('utf-8', 'replace'))
+            _release_slot(slots.pop(k, None))
         if not done:
             if time.time() > t_end:
                 for k, pr in running.items():
                     pr.kill()
                     results[k] = (124, '[timeout]')
+                    _release_slot(slots.pop(k, None))
                 running.clear()
                 for k in range(idx, len(paths)):
                     results[k] = (124, '[timeout-not-started]')
